@@ -110,6 +110,12 @@ def check_c12(res):
         for _ in range(3 if thorough else 1):
             b = bytes(rnd.choice(b"\n\n\r ab") for _ in range(L))
             cases.append(("lfindex %s" % hexs(b), "lfindex", b, 0, L))
+    # many line feeds with short, irregular lines: the index array is grown while a 16-byte block is half processed
+    for nlf in (60, 63, 64, 65, 66, 70, 127, 128, 129, 130, 255, 256, 257, 300, 513, 1025):
+        for _ in range(2):
+            b = b"".join(b"x" * rnd.choice([0, 0, 1, 2, 3, 5, 7]) + b"\n" for _ in range(nlf))
+            b = b" " * rnd.randrange(0, 16) + b
+            cases.append(("lfindex %s" % hexs(b), "lfindex", b, 0, len(b)))
     lines = [c[0] for c in cases]
     for cfg in (CFGS if thorough else ["00", "11"]):
         for kind in (("san", "prod") if thorough else ("san",)):
@@ -403,6 +409,65 @@ def fault_indices(n, libc, dense_below=80, head=40, tail=20, steps=40):
     for i in libc:
         ks.update(k for k in (i - 1, i, i + 1) if 0 <= k < n)
     return sorted(ks)
+
+
+def external_history_scripts(rnd, n_random):
+    """scripts mixing external-type table operations (register with / without hash callback, re-register, refused
+    registration, unregister -- for the type of the values and for unrelated types, in every order) with reads of
+    documents whose tag handler produces external values, and equality / lookup / membership / duplicate queries on
+    them.  The expected answers are the model's: the table is a finite map from type id to the latest callbacks
+    (proved), equality of externals = same type and (callback or same pointer)."""
+    out = []
+    m_ = hexs(b"{#x 1 :a #x 2 :b #x 3 :c}")
+    s_ = hexs(b"#{#x 1 #x 2 #x 3}")
+    p_ = hexs(b"[#x 1001 #x 2 #x 4 #x 3003]")
+    big = hexs(b"#{" + b" ".join(b"#x %d" % i for i in range(1, 20)) + b" #x 1007}")
+    bigm = hexs(b"{" + b" ".join(b"#x %d %d" % (i, i) for i in range(1, 20)) + b" #x 2013 0}")
+    q_ = "L0,2.0;K0,2.0;S1,2.0;L0,2.1;S1,2.1;L0,2.2;S1,2.2;L0,2.3;E0.0,2.0;E2.0,0.0;H0.0;H2.0;E0.0,2.0;L0,2.0"
+    fixed = [
+        "Xr7:5;R0=%s;R1=%s;R2=%s;%s;Xu7;%s" % (m_, s_, p_, q_, q_),
+        "Xr9:0;Xr7:5;Xu9;R0=%s;R1=%s;R2=%s;%s" % (m_, s_, p_, q_),                 # unregister an OLDER, unrelated type
+        "Xr7:5;Xr9:0;Xr5:1;Xu9;R0=%s;R1=%s;R2=%s;%s" % (m_, s_, p_, q_),
+        "Xr7:6;Xr7:5;R3=%s;R4=%s" % (big, bigm),                                    # hash callback added by re-registration
+        "Xr7:5;Xr7:6;R3=%s;R4=%s" % (big, bigm),                                    # ... and removed by re-registration
+        "Xr7:5;R0=%s;R2=%s;L0,2.0;Xu7;L0,2.0;Xr7:0;L0,2.0;Xr7:5;L0,2.0" % (m_, p_),  # lookups around unregister / re-register
+        "Xr7:5;R1=%s;R2=%s;S1,2.0;Xu7;Xr8:0;Xr6:1;S1,2.0;R1=%s;S1,2.0" % (s_, p_, s_),
+        "Xr7:4;R0=%s;R2=%s;L0,2.0;Xr7:5;Xr7:4;L0,2.0" % (m_, p_),                    # refused registrations change nothing
+    ]
+    for f in fixed:
+        out.append("script " + f)
+    ids = [7, 7, 7, 9, 5]
+    for _ in range(n_random):
+        ops = []
+        for _ in range(rnd.randrange(1, 6)):
+            i = rnd.choice(ids)
+            ops.append(rnd.choice(["Xr%d:0", "Xr%d:2", "Xr%d:5", "Xr%d:5", "Xr%d:6", "Xr%d:4", "Xu%d"]) % i)
+        body = ops + ["R0=" + m_, "R1=" + s_, "R2=" + p_, q_]
+        for _ in range(rnd.randrange(0, 4)):
+            i = rnd.choice(ids)
+            body.append(rnd.choice(["Xr%d:0", "Xr%d:5", "Xr%d:6", "Xu%d", "Xu%d"]) % i)
+        body.append(q_)
+        if rnd.random() < 0.5:
+            body += ["R3=" + big, "R4=" + bigm]
+        out.append("script " + ";".join(body))
+    return out
+
+
+def check_external_histories(res, cfg, kind, thorough):
+    rnd = random.Random(res.seed * 131 + int(cfg, 2))
+    scripts = external_history_scripts(rnd, 300 if thorough else 80)
+    impl, model = correspond(res, cfg, "san", scripts, label="external-type-histories")
+    for ln, a, mo in zip(scripts, impl, model):
+        res.count("external-type-history")
+        res.nontrivial.add((cfg, "ext-history", ln[-120:]))
+        if is_crash(a):
+            res.violations.append(Violation(kind + ":" + refs.crash_class(a), ln, a[:250], cfg))
+        elif a != mo and not mo.startswith(("MODELFAIL", "DRIVERFAIL")):
+            oa, om = a.split(";"), mo.split(";")
+            bad = next((k for k, (x, y) in enumerate(zip(oa, om)) if x != y), min(len(oa), len(om)))
+            res.violations.append(Violation(kind, ln, "answer %d is %s; a table that maps each type id to its latest callbacks gives %s (ops: %s)"
+                                            % (bad, (oa[bad] if bad < len(oa) else "missing")[:60], (om[bad] if bad < len(om) else "-")[:60],
+                                               ";".join(ln.split(" ", 1)[1].split(";")[: bad + 1])[-160:]), cfg))
 
 
 # =============================================================================== C07
@@ -723,6 +788,7 @@ def check_c08(res):
             if is_crash(a) or a.startswith("OK "):
                 res.violations.append(Violation("duplicate-accepted-under-allocation-failure", ln[:100000],
                                                 "literal with an equal pair: %s" % a[:120], cfg))
+        check_external_histories(res, cfg, "external-value-duplicates-disagree-with-type-table", thorough)
         res.sample({"cfg": cfg, "doc": lines[3][:200]})
 
 
@@ -856,6 +922,7 @@ def check_c09(res):
                     elif got != "idx%d" % want:
                         res.violations.append(Violation("helper-disagrees-with-lookup", ln[:3000], "entry %d: %s" % (want, got), cfg))
         check_fetch_histories(res, cfg, "lookup-depends-on-string-fetch")
+        check_external_histories(res, cfg, "external-value-lookup-disagrees-with-type-table", thorough)
         res.sample({"cfg": cfg, "script": scripts[2][:300]})
 
 
@@ -965,6 +1032,22 @@ def check_c05(res):
                                                 "literal %s (%d chars): implementation %s, correctly rounded %s" % (lit[:60], nchars, a[:60], want[:60]), cfg))
         leaf = ["double %s" % l.encode().hex() for l in lits[:800]]
         correspond(res, cfg, "prod", leaf, label="parse_double")
+        # the literal is the LAST thing of an explicit-length input and the bytes behind the length would continue a
+        # number: the value must not depend on them (and they must not be read)
+        tails = [b"5", b"78", b"e3", b".5", b"e-2", b"0" * 20]
+        sl_, sm_ = [], []
+        for lit in [l for l in lits if len(l) >= 17 or "e" in l or "E" in l][: (600 if thorough else 200)] + ["1.5e30", "2.5e-30", "0.1234567890123456", "1234567.1234567890"]:
+            for tl_ in rnd.sample(tails, 2):
+                sl_.append(docline(lit.encode() + tl_, length=len(lit)))
+                sm_.append((lit, tl_))
+        simpl, smodel = correspond(res, cfg, "san", sl_, label="float-literal-at-end-of-explicit-length-input")
+        for (lit, tl_), ln, a in zip(sm_, sl_, simpl):
+            res.count("float-at-end-of-input")
+            res.nontrivial.add((cfg, "tail", lit, tl_))
+            want = "OK float:%s@0-%d calls=0" % (refs.expect_float_bits(lit, exp), len(lit))
+            if is_crash(a) or a != want:
+                res.violations.append(Violation("float-depends-on-bytes-behind-the-input", ln,
+                                                "literal %s followed in memory by %r: %s, correctly rounded %s" % (lit[:40], tl_, a[:80], want[:60]), cfg))
         # long literals under memory pressure (EDN_C_VERIF allocation hook): whichever single request fails, the read
         # reports an error or the correctly rounded double of the WHOLE literal, never the value of a truncated copy
         longs = ["1234567890" * 60 + "e-590", "0." + "0" * 600 + "25e601", "1" + "0" * 600 + ".5e-300",
@@ -1098,15 +1181,42 @@ def check_c06(res):
                     exp3.append("1" if op.split(",")[1] == hexs(dec) else "0")
             if is_crash(a) or first3 != exp3 or out[4] != want_g or out[6] != want_g or out[7] != "1":
                 res.violations.append(Violation("string-get-unstable-or-equals-disagrees", ln, "%s (expected %s then get %s)" % (a[:200], exp3, want_g[:60]), cfg))
+        # literals with an escape this build does not define: EVERY access reports the error (NULL / not equal), not only
+        # the first one; nothing half-decoded may be handed out later
+        ul_, um_ = [], []
+        und = [b"abc\\qdef", b"\\x41", b"ab\\ ", b"tail\\a", b"\\u12", b"\\uD800", b"x\\ y", b"long prefix " * 8 + b"\\q"] + \
+              ([] if clj else [b"ab\\fcd", b"\\u0041", b"p\\101q", b"\\b"])
+        for body in und:
+            if refs.unescape(body, clj) is not None:
+                continue
+            doc = b'["' + body + b'" "ok\\n"]'
+            pre = body.split(b"\\")[0]
+            for ops in ("G0.0;G0.0;G0.0", "G0.0;G0.1;G0.0;Q0.0,%s;G0.0" % hexs(pre), "Q0.0,%s;G0.0;Q0.0,%s;G0.0" % (hexs(pre), hexs(pre)),
+                        "G0.0;H0.0;G0.0;D0.0;G0.0"):
+                ul_.append("script P0=%s;%s" % (hexs(doc), ops))
+                um_.append((body, ops))
+        uimpl, umodel = correspond(res, cfg, "san", ul_, label="undefined-escape-histories")
+        for (body, ops), ln, a in zip(um_, ul_, uimpl):
+            res.count("undefined-escape-history")
+            out = a.split(";")[1:]
+            bad = is_crash(a)
+            for op, o_ in zip(ops.split(";"), out):
+                if (op.startswith("G0.0") and o_ != "NULL") or (op.startswith("Q0.0") and o_ != "0"):
+                    bad = True
+            if bad:
+                res.violations.append(Violation("undefined-escape-returned-or-accepted-on-a-later-access", ln,
+                                                "literal %r, accesses %s: %s" % (body[:40], ops[:60], a[:160]), cfg))
         # several strings of ONE document fetched in interleaved order: a later lazy materialisation (another string's
         # decode buffer, or any other arena request) must not disturb a buffer handed out earlier.  Decoded lengths
         # sit around the arena's 8-byte granule and the usual block sizes.
         scripts, smeta = [], []
-        escs = [b"\\n", b"\\t", b"\\\\", b'\\"'] + ([b"\\u00e9", b"\\101"] if clj else [])
-        lens = [1, 7, 8, 9, 15, 16, 17, 24, 31, 32, 33, 64, 255, 256, 4088, 4096] if thorough else [7, 8, 9, 16, 24, 32, 64, 256, 4096]
+        escs = [b"", b"\\n", b"\\t", b"\\\\", b'\\"'] + ([b"\\u00e9", b"\\101"] if clj else [])      # b"": no escape at all
+        lens = [0, 1, 7, 8, 9, 15, 16, 17, 24, 31, 32, 33, 64, 255, 256, 4088, 4096] if thorough else [0, 7, 8, 9, 16, 24, 32, 64, 256, 4096]
         for L in lens:
             for esc_ in escs:
                 declen = len(refs.unescape(esc_, clj))
+                if L < declen:
+                    continue
                 first = esc_ + b"b" * (L - declen)                        # decoded length exactly L
                 others = [rnd.choice([b"xyz", b"x\\ny", b"q" * rnd.choice([1, 8, 16, 40]) + b"\\t", b"plain"]) for _ in range(3)]
                 strs = [first] + others
@@ -1403,6 +1513,7 @@ def check_c01(res):
             if is_crash(a) or "!MISALIGNED" in a:
                 res.violations.append(Violation("misaligned-or-invalid-arena-memory:" + (refs.crash_class(a) if is_crash(a) else "alignment"),
                                                 ln[:200000], a[:200], cfg))
+        check_external_histories(res, cfg, "invalid-access-in-external-type-table", thorough)
         # accessors on the returned trees
         scripts = []
         for d in docs[: (300 if thorough else 100)]:
@@ -1549,6 +1660,32 @@ def check_c11(res):
                 if (l_, c_) != refs.line_col(d, o_):
                     res.violations.append(Violation("error-line-column-wrong", ln,
                                                     "offset %d: reported %d:%d, expected %d:%d" % ((o_, l_, c_) + refs.line_col(d, o_)), cfg))
+        # (c) inputs given with an explicit length that ends INSIDE a token while the buffer continues with the rest of
+        # it (a slice of a larger buffer): no reported offset -- value range or error range -- may exceed the length
+        tl_, tm_ = [], []
+        toks_ = [b"##Inf", b"##-Inf", b"##NaN", b"\\newline", b"\\u0041", b"nil", b"true", b"false", b"123456", b"1.5e10",
+                 b'"string"', b":kw/name", b"sym", b"#inst 1", b"12N", b"3.5M"] + ([b"0x1F", b"1/2", b"^:a [1]", b"#:n{:a 1}"] if cfg[0] == "1" else [])
+        for tk in toks_:
+            for cut in range(1, len(tk)):
+                for (pre, post) in ((b"", b""), (b"[1 ", b"]"), (b"{:k ", b"}")):
+                    full = pre + tk + post
+                    L_ = len(pre) + cut
+                    tl_.append(docline(full, length=L_))
+                    tm_.append((full, L_))
+        timpl, tmodel = correspond(res, cfg, "san", tl_, label="explicit-length-inside-token")
+        for (full, L_), ln, a in zip(tm_, tl_, timpl):
+            res.count("explicit-length-inside-token")
+            res.nontrivial.add((cfg, "cut", full, L_))
+            if is_crash(a):
+                res.violations.append(Violation("error-range-outside-input", ln, a[:200], cfg))
+                continue
+            offs = [int(x) for pair in re.findall(r"@(\d+)-(\d+)", a) for x in pair]
+            so = refs.split_obs(a)
+            if so[0] == "ERR":
+                offs += [so[3][0], so[4][0]]
+            if any(o_ > L_ for o_ in offs):
+                res.violations.append(Violation("error-range-outside-input" if so[0] == "ERR" else "value-range-outside-input", ln,
+                                                "input %r with length %d: %s" % (full, L_, a[:120]), cfg))
         res.sample({"cfg": cfg, "doc": lines[0][:120]})
 
 
@@ -1633,6 +1770,22 @@ def check_c13(res):
             if strip(a) != strip(a0):
                 res.violations.append(Violation("trivia-changes-value-or-handler-calls", ln,
                                                 "inserting %r at %d of %r: %s vs %s" % (t, p, d[:60], strip(a)[:150], strip(a0)[:150]), cfg))
+        # k chained / nested discards in front of a kept form, k around the widths a nesting counter could have:
+        # the value is the kept form, no handler runs, no unknown-tag fallback fires
+        dl, dmeta = [], []
+        for k_ in (1, 2, 40, 127, 128, 255, 256, 257, 511, 512):
+            for inner in (b"#inst [1 2]", b"#nope 3", b"#x #y 4"):
+                for d_ in (b"#_ " * k_ + inner + b" " + b"0 " * (k_ - 1) + b":kept", b"#_[" * k_ + inner + b"]" * k_ + b" :kept"):
+                    for (r_, m_) in ((reg, 0), (reg, 2), ("+", 1), ("+", 2)):
+                        dl.append(docline(d_, reg=r_, mode=m_))
+                        dmeta.append((k_, inner, r_, m_))
+        impl, model = correspond(res, cfg, "san", dl, label="deep-discards")
+        for (k_, inner, r_, m_), ln, a in zip(dmeta, dl, impl):
+            res.count("deep-discard")
+            res.nontrivial.add((cfg, "deep-discard", k_, inner, r_, m_))
+            if is_crash(a) or not a.startswith("OK kw:~:6b657074@") or not a.endswith("calls=0"):
+                res.violations.append(Violation("trivia-changes-value-or-handler-calls", ln[:3000],
+                                                "%d discards around %r (registry %s, mode %d): %s" % (k_, inner, r_[:12], m_, a[:120]), cfg))
         # trivia-only documents
         tl, tmeta = [], []
         for _ in range(200 if thorough else 80):
@@ -1767,12 +1920,17 @@ def check_c14(res):
             res.violations.append(Violation("external-type-table-is-not-a-map", ln, "%s expected %s" % (a, ";".join(want)), "00"))
     # documents
     for cfg in CFGS:
+        check_external_histories(res, cfg, "external-type-table-is-not-a-map", res.tier == "thorough")
         g = Gen(res.seed * 23 + int(cfg, 2), clj=cfg[0] == "1", exp=cfg[1] == "1", tags=("inst", "uuid", "my/tag", "x", "y", "fail", "nomsg"))
         docs = [g.document(4) for _ in range(300 if thorough else 100)]
         docs += [b"#inst #uuid #x 1", b"[#fail 1 #inst 2]", b"#_ #fail 1 #inst 2", b"#inst #_ #fail 1 2", b"#nomsg [#inst 1]",
                  b"{#inst 1 #uuid 2}", b"#{#x 1}", b"#y #y #y 1", b"#my/tag {:a #inst 1}",
                  b"#_ [#_ 1 #fail 2] 3", b"[#_ (#_ a #inst b) #uuid c]", b"#_ #_ 1 #fail 2 #inst 3",
                  b"#_ {#_ #fail 1 :a #fail 2} #x 4", b"#_ #inst #_ #fail 1 #fail 2 5"]
+        # a tagged element under k nested discards, k around the widths a nesting counter could have (8 / 9 bits)
+        for k_ in (2, 127, 128, 255, 256, 257, 511, 512):
+            docs.append(b"#_ " * k_ + b"#fail 1 " + b"0 " * (k_ - 1) + b":end")
+            docs.append(b"#_[" * k_ + b"#fail 1 #unknown 2" + b"]" * k_ + b" :end")
         regs = ["-", "+", "inst:0,uuid:1,fail:2,nomsg:3,my/tag:4,x:5"]
         lines, meta = [], []
         for d in docs:
@@ -1830,7 +1988,10 @@ def c16_corpus(cfg):
         docs += [b"^:a [1]", b"^{:a 1} ^:b ^\"T\" ^[x] (1)", b"#:n{:a 1 :b/c 2 :_/d 3}", b"1/2", b"99999999999999999999/3", b"0x10", b"[^:a]"]
     if exp:
         docs += [b'"""\n  a\n  b\n  """', b'"""\n' + b"".join(b" l%d\n" % i for i in range(20)) + b' """', b'"""\n a \\""" b"""',
-                 b'"""\n abc', b"1_000", b"1_0N", b"[1_0.5M]"]
+                 b'"""\n abc', b"1_000", b"1_0N", b"[1_0.5M]",
+                 # big numbers whose digits are cleaned lazily, compared with each other by the duplicate check
+                 b"#{1_0N 200N}", b"#{1_0N 2_0N 300N 4_00N}", b"{1_0.5M 1 20.5M 2}",
+                 b"#{" + b" ".join(b"%d_0N" % i for i in range(1, 20)) + b"}", b"#{1_0N 10N}"]
     return docs
 
 
@@ -1999,6 +2160,10 @@ def check_c18(res):
                 if d in (b"\\\x0c ", b"\\\x08 ") and cfg in ("10", "11") and fouts[cfg][i].startswith("ERR INVALID_CHARACTER"):
                     kind = "raw-formfeed-or-backspace-character-literal-rejected-with-clojure-flag"
                 res.violations.append(Violation(kind, ln, "%r flags %s: %s vs core %s" % (d, cfg, fouts[cfg][i][:100], base[:100]), cfg))
+    # core string literals behave alike under every flag set also ACROSS API call sequences: equality, lookup and
+    # membership answers before / after edn_string_get on either operand (core escapes only)
+    for cfg in CFGS:
+        check_fetch_histories(res, cfg, "core-strings-behave-differently-with-flags-after-a-fetch")
     res.sample({"doc": lines[0][:120]})
 
 
@@ -2097,12 +2262,17 @@ def check_c19(res):
             d = (pos % body).encode()
             mlines.append(docline(d))
             mmeta.append(("ok", d, tgt, exp_entries, pos))
-        for tgt in targets_bad:
-            mlines.append(docline(("^:a " + tgt).encode()))
-            mmeta.append(("badtarget", None, tgt, None, None))
+        # the gates hold wherever the marker stands: at top level, nested, as a tag operand, and inside a form that
+        # is being DISCARDED (a discarded form must still be well-formed)
+        ctxs = ["%s", "[1 %s 2]", "{:k %s}", "#t %s", "[1 #_ %s 2]", "#_ [1 %s 2] :after", "#_ %s foo", "[#_ #_ 0 %s 1]"]
+        for tgt in targets_bad + ["12345678901234567890N", "1.5M", "##Inf"]:
+            for ctx in ctxs:
+                mlines.append(docline((ctx % ("^:a " + tgt)).encode()))
+                mmeta.append(("badtarget", None, ctx % ("^:a " + tgt), None, None))
         for ann in ["1", "(a)", "#{1}", "nil", "1.5", "\\c"]:
-            mlines.append(docline(("^" + ann + " [1]").encode()))
-            mmeta.append(("badann", None, ann, None, None))
+            for ctx in ctxs:
+                mlines.append(docline((ctx % ("^" + ann + " [1]")).encode()))
+                mmeta.append(("badann", None, ctx % ("^" + ann + " [1]"), None, None))
         for d in [b"[^:a]", b"[^]", b"{:k ^:a}", b"(^{:a 1})", b"^", b"^:a", b"#{^:a}", b"[^:a ^:b]"]:
             mlines.append(docline(d))
             mmeta.append(("missing", d, None, None, None))
@@ -2318,6 +2488,40 @@ def check_c03(res):
                 if got != want:
                     res.violations.append(Violation("document-read-to-a-different-value", ln,
                                                     "%r: read %s, denotes %s" % (d[:120], got[:200], want[:200]), cfg))
+    # the same renderings through edn_read_with_options: an (empty) handler registry with the PASSTHROUGH default
+    # must not change anything; the UNWRAP default yields the value with every tag wrapper removed; also with the
+    # caller's end-of-input value supplied (irrelevant for a document that holds a form)
+    def strip_tags(e_):
+        if isinstance(e_, str):
+            return e_
+        h_, vals_ = e_
+        if h_.startswith("tag:"):
+            return strip_tags(vals_[0])
+        return (h_, [strip_tags(x) for x in vals_])
+    odocs = []
+    for v, want in vals[: (300 if thorough else 120)]:
+        e_ = vg.expect(v)
+        d_ = vg.trivia(False) + vg.render(v) + vg.trivia(False)
+        odocs.append((d_, 0, want))
+        st_ = strip_tags(e_)
+        if not c03.has_dups(st_):
+            odocs.append((d_, 1, c03.canon(st_)))
+    olines = [docline(d, reg="+", mode=mo, eof=rnd.randrange(2)) for d, mo, _ in odocs]
+    for cfg in CFGS:
+        impl, model = correspond(res, cfg, "san", olines, label="value-renderings-with-options")
+        for (d, mo, want), ln, a in zip(odocs, olines, impl):
+            res.count("rendering-with-options")
+            res.nontrivial.add((d, mo))
+            so = refs.split_obs(a)
+            if is_crash(a):
+                res.violations.append(Violation("rendering-crash", ln, a[:200], cfg))
+            elif so[0] != "OK":
+                res.violations.append(Violation("well-formed-document-rejected", ln, "%r (registry, default mode %d) -> %s" % (d[:120], mo, a[:100]), cfg))
+            else:
+                got = c03.norm_impl(refs.parse_dump(so[1]))
+                if got != want:
+                    res.violations.append(Violation("document-read-to-a-different-value", ln,
+                                                    "%r (registry, default mode %d): read %s, denotes %s" % (d[:120], mo, got[:200], want[:200]), cfg))
     # (b) the published grammar
     rules = ebnf.load(os.path.join(REPO, "docs", "grammar", "edn_grammar.ebnf"))
     dv = ebnf.Deriver(rules, res.seed)
@@ -2631,10 +2835,24 @@ def check_c02(res):
             for _ in range(300 if thorough else 100):
                 a = rnd.randrange(-2 ** 63, 2 ** 63); b = rnd.randrange(1, 2 ** 63)
                 gl.append("gcd %d %d" % (a, b)); gm.append((a, b))
-            impl, model = correspond(res, cfg, "san", gl, label="gcd")
-            for (a, b), ln, o in zip(gm, gl, impl):
+            # (a call that does not return within the CPU limit ends its batch: at most 2 such calls per shard are waited for)
+            from concurrent.futures import ThreadPoolExecutor as _TPE
+            gparts = [gl[i::8] for i in range(8)]
+            with _TPE(8) as ex_:
+                gres = list(ex_.map(lambda p_: runner.run_impl(cfg, "san", p_, timeout=30, max_crashes=2), gparts))
+            impl = [None] * len(gl)
+            for k_ in range(8):
+                for j_, o_ in enumerate(gres[k_]):
+                    impl[k_ + j_ * 8] = o_
+            gmodel = runner.run_model(cfg, gl)
+            res.evaluations += len(gl); res.traces += len(gl)
+            for (a, b), ln, o, mo in zip(gm, gl, impl, gmodel):
                 res.count("gcd")
                 res.nontrivial.add(ln)
+                if o == "SKIPPED-AFTER-CRASH":
+                    continue
+                if o != mo and not is_crash(o):
+                    res.corr_breaks.append({"cfg": cfg, "build": "san", "case": ln, "impl": o[:200], "model": mo[:200], "suite": "gcd"})
                 if is_crash(o) or o.strip() != str(math.gcd(a, b)):
                     res.violations.append(Violation("gcd-wrong-or-does-not-return", ln, "gcd(%d,%d) -> %s, expected %d" % (a, b, o[:60], math.gcd(a, b)), cfg))
             rl = []
@@ -2642,10 +2860,22 @@ def check_c02(res):
                 for b in B:
                     if b > 0:
                         rl.append(docline(b"%d/%d" % (a, b)))
-            impl, model = correspond(res, cfg, "san", rl, label="ratio-literals")
-            for ln, o in zip(rl, impl):
+            rparts = [rl[i::8] for i in range(8)]
+            with _TPE(8) as ex_:
+                rres = list(ex_.map(lambda p_: runner.run_impl(cfg, "san", p_, timeout=30, max_crashes=2), rparts))
+            impl = [None] * len(rl)
+            for k_ in range(8):
+                for j_, o_ in enumerate(rres[k_]):
+                    impl[k_ + j_ * 8] = o_
+            rmodel = runner.run_model(cfg, rl)
+            res.evaluations += len(rl); res.traces += len(rl)
+            for ln, o, mo in zip(rl, impl, rmodel):
                 res.count("ratio-literal")
                 res.nontrivial.add(ln)
+                if o == "SKIPPED-AFTER-CRASH":
+                    continue
+                if o != mo and not is_crash(o):
+                    res.corr_breaks.append({"cfg": cfg, "build": "san", "case": ln, "impl": o[:200], "model": mo[:200], "suite": "ratio-literals"})
                 if is_crash(o):
                     res.violations.append(Violation("ratio-literal-crash-or-hang", ln, o[:120], cfg))
         # (e) reads with a handler registry that has a HISTORY (every tag registered, some or all registered again, some
